@@ -25,3 +25,41 @@ package vgirpc
 //@ func (*Server).serveUnary
 //@   property C07
 //@   at call (*Server).serveUnary$1 assert [boundfirst] err == nil
+
+// "Each field holds the value sent", for the three binders where it did not (repaired defects,
+// found by a scouting sub-agent):
+//
+// A duration column holds microseconds; time.Duration holds nanoseconds in an int64. The value
+// handed to setDurationField is the column's value times 1000 as a mathematical integer — the
+// multiplication did not wrap (values time.Duration cannot hold are refused before it).
+//
+//@ func setFieldFromArrow
+//@   property C07
+//@   at call setDurationField assert [valuesent] arg3 == durationAt(embedded(c, "numericArray"), idx) * 1000
+//
+// A map item is read through setFieldFromArrow only after its own validity bit was looked at and
+// said "not null"; a null item leaves the value at its zero value.
+//
+//@ func setMapField
+//@   property C07
+//@   pathflag itemseen
+//@   pathvar itemnull bool
+//@   pathvar itemslot int
+//@   at call arrow.Array.IsNull mark itemseen
+//@   at call arrow.Array.IsNull setflag itemnull result
+//@   at call arrow.Array.IsNull setflag itemslot arg1
+//@   at call arrow.Array.IsNull assert [itemsbit] arg0 == items
+//@   at call setFieldFromArrow#2 assert [notnull] itemseen && !itemnull && arg3 == itemslot && arg2 == items
+//
+// A declared default is parsed at the field's own width (the bit size reflect reports for the
+// field's type), so that an int32 / uint16 / float32 field takes its default like an int64 one;
+// for a pointer field the default is parsed for the element type, from the same text.
+//
+//@ func setFieldFromString
+//@   property C07
+//@   pathvar width int
+//@   at call reflect.Type.Bits setflag width result
+//@   at call strconv.ParseInt assert [ownwidth] arg0 == s && arg1 == 10 && arg2 == width
+//@   at call strconv.ParseUint assert [ownwidth] arg0 == s && arg1 == 10 && arg2 == width
+//@   at call strconv.ParseFloat assert [ownwidth] arg0 == s && arg1 == width
+//@   at call setFieldFromString assert [sametext] arg2 == s
